@@ -190,6 +190,14 @@ func c06Check(t gen.TB, c *c06World, s *gen.Stream, id, desc string, levels []ge
 	for _, l := range levels {
 		want := c.model(l)
 		o := w.Options(l, w.NewGetter(), pool)
+		if s.Intn(2) == 0 && l < gen.LvlCRL {
+			// a caller that only fills in the times of the checks it asked for: the entries of disabled checks stay zero
+			if l < gen.LvlColl {
+				o.Now.TcbInfo, o.Now.QeIdentity = time.Time{}, time.Time{}
+			}
+			o.Now.PckCrl, o.Now.RootCaCrl = time.Time{}, time.Time{}
+			gen.Class("time-set:entries-of-disabled-checks-left-zero")
+		}
 		gen.Eval()
 		v := gen.Call(func() error { return verify.RawTdxQuote(w.Raw, o) })
 		rp := w.CaseFile(l, nil, nil, []*gen.Cert{poolRoot}, map[bool]string{true: "reject", false: "accept"}[want != ""])
